@@ -31,7 +31,8 @@ def cases(chk):
                     yield "recv", {"d": d, "flags": f, "enc": enc}
     # messages whose payload the library cannot present: every kind, generated field values and key shapes
     for i in range(chk.scale(300, 6000)):
-        d = {"tag": "message", "mtype": "text", "hasProto": 1, "media": "absent", "payload": "other", "pseed": r.randrange(1 << 30) if i >= 9 * 4 else i * 1000003 + i,
+        # ... in a stanza of type text, or of a type the library does not know at all (reaction, poll, ...: "other")
+        d = {"tag": "message", "mtype": ["text", "other"][i % 2] if i >= 9 * 4 else "text", "hasProto": 1, "media": "absent", "payload": "other", "pseed": r.randrange(1 << 30) if i >= 9 * 4 else i * 1000003 + i,
              "participant": r.choice([0, 1]), "skdm": r.choice([0, 0, 1])}
         yield "recv", {"d": d, "flags": r.choice(c06.FLAGSETS), "enc": r.choice([0, 1])}
     # unsupported media types, with and without a piggy-backed key distribution
